@@ -65,7 +65,18 @@ ChipAuth(c, o) == IF ~PaOK(c, o) THEN "NONE"
                   ELSE IF CamOK(c, o) THEN "PACE_CAM"
                   ELSE IF CaOK(c, o) THEN "CA" ELSE "NONE"
 
+\* ---- progress reports (reader.ReaderStatus): the phases of a fault-free read that gets access, in order -------
+\* 1 connecting, 2 EF.CardAccess, 3 PACE (unless skipped), 4 BAC (only without a session after PACE), 5 EF.DIR,
+\* 6 EF.SOD, 7 EF.COM, then one phase 8 per data group in the order of the security object's hash list (images
+\* skipped on request), 9 AA (always), 10 CA (only if nothing authenticated the chip yet), 11 completeness,
+\* 12 passive authentication, 13 finished.  A phase says which step was entered, not that it found work.
+PhasesBefore(c, o) == << 1, 2 >> \o (IF o.skipPace THEN << >> ELSE << 3 >>) \o (IF SmAfterPace(c, o) THEN << >> ELSE << 4 >>) \o << 5, 6, 7 >>
+PhasesAfter(c, o) == << 9 >> \o (IF AaOK(c, o) \/ CamOK(c, o) THEN << >> ELSE << 10 >>) \o << 11, 12, 13 >>
+\* the data groups for which a reading phase is reported: every listed one the reader wants (stored or not)
+DgPhases(c, o) == Wanted(c, o)
+
 Expected(c, o) == [access |-> AccessOK(c, o), obtained |-> Obtained(c, o),
+                   phasesBefore |-> PhasesBefore(c, o), phasesAfter |-> PhasesAfter(c, o), dgPhases |-> DgPhases(c, o),
                    pace |-> IF PaceTried(c, o) THEN (IF PaceReported(c, o) THEN "ok" ELSE "failed") ELSE "absent",
                    cam |-> IF CamOK(c, o) THEN "ok" ELSE "absent",
                    bac |-> IF BacTried(c, o) THEN (IF BacOK(c, o) THEN "ok" ELSE "failed") ELSE "absent",
